@@ -387,6 +387,9 @@ fn read_cleartext_body<B: BufRead>(b: &mut B) -> Result<(String, String)> {
     let mut out = String::new();
 
     loop {
+        // the line break in front of the line that is read next
+        let search_from = out.len().saturating_sub(1);
+
         let read = b.read_line(&mut out)?;
         // early end
         if read == 0 {
@@ -398,8 +401,12 @@ fn read_cleartext_body<B: BufRead>(b: &mut B) -> Result<(String, String)> {
             return Ok(("".to_string(), out));
         }
 
-        // Look for header start in the last line
-        if let Some(pos) = out.rfind("\n-----") {
+        // Look for header start in the last line (what precedes it has been searched already)
+        let found = out
+            .get(search_from..)
+            .and_then(|tail| tail.rfind("\n-----"))
+            .map(|pos| pos + search_from);
+        if let Some(pos) = found {
             // found our end
             let rest = out.split_off(pos + 1);
 
